@@ -33,10 +33,13 @@ SameOuts(a, b) == Len(a) = Len(b) /\ \A i \in DOMAIN a : OutKey(a[i]) = OutKey(b
 
 (* C12 for compile failures: the error carries the text, its offset is a character boundary inside 0..len and
    line / column are the coordinates of that offset *)
-CoordsOk(r) ==
-  LET e == r.parse.err IN
+CoordsOkOf(r, e) ==
   /\ e.expr_same /\ e.char_offset >= 0 /\ e.char_offset <= Len(r.text)
   /\ LET c == Coord(r.text, e.char_offset) IN e.line = c.line /\ e.col = c.col
+(* ... for the error of parse() and for the error of compile() on the same text, which must be the same error *)
+CoordsOk(r) ==
+  /\ CoordsOkOf(r, r.parse.err)
+  /\ ("cerr" \in DOMAIN r.parse /\ "none" \notin DOMAIN r.parse.cerr) => (CoordsOkOf(r, r.parse.cerr) /\ r.parse.cerr = r.parse.err)
 
 Why(r) ==
   LET x == L0(r) IN
